@@ -37,6 +37,14 @@ thread_local! {
     static SWITCH_FP: Cell<u64> = const { Cell::new(0) };
 }
 
+/// Is this failure a violation of the property under check? C08's last sentence ("never removes a
+/// blob that is referenced or that a concurrent put of the same content is committing") is observed
+/// by the same oracles as C04 (dangling reference), so in C08's programs - which always contain a
+/// clean-up call - those count as C08's own.
+fn is_own(prop: &str, f: &Failure) -> bool {
+    f.props.iter().any(|p| p == prop) || (prop == "C08" && f.props.iter().any(|p| p == "C04"))
+}
+
 pub fn is_conc_case(case: &Case) -> bool {
     matches!(case.mode, Mode::Conc(_))
 }
@@ -405,7 +413,7 @@ impl<K: SimKey> Shared<K> {
     fn flag(&self, f: Failure) {
         let mut g = self.failure.lock().unwrap();
         // prefer a failure of the property under check
-        let own = |f: &Failure| f.props.iter().any(|p| *p == self.prop);
+        let own = |f: &Failure| is_own(&self.prop, f);
         match &*g {
             None => *g = Some(f),
             Some(old) if !own(old) && own(&f) => *g = Some(f),
@@ -892,7 +900,9 @@ fn lock_name(id: usize) -> String {
 fn one_execution<K: SimKey>(case: &Arc<Case>, spec: &Arc<ConcSpec>, pre: &Arc<PreState>, results: &Arc<StdMutex<ProgResults>>, sched: &Arc<StdMutex<SchedShared>>, tables: &Arc<Tables<K>>) {
     let wl = &case.workload;
     let base = fresh_dir();
-    pre.disk.materialise(&base, &BTreeSet::new()).expect("materialise pre-state");
+    if !spec.fresh_dir {
+        pre.disk.materialise(&base, &BTreeSet::new()).expect("materialise pre-state");
+    }
     let mut sim = Sim::new(&base, 5);
     sim.disk = Disk::from_dir(&base).expect("read pre-state");
     sim.mon.cas_immutable = true;
@@ -973,7 +983,7 @@ fn one_execution<K: SimKey>(case: &Arc<Case>, spec: &Arc<ConcSpec>, pre: &Arc<Pr
         match r {
             Ok(Ok(cas)) => {
                 let n = interpose::enter(|| cas.read_index_state().len());
-                if n != pre.model.len() {
+                if n != if spec.fresh_dir { 0 } else { pre.model.len() } {
                     sh.flag(fail(&["C11", "C02"], "data-changed", 0, format!("after racing opens the store has {n} keys, pre-state had {}", pre.model.len())));
                 }
                 interpose::enter(|| drop(cas));
@@ -992,7 +1002,7 @@ fn one_execution<K: SimKey>(case: &Arc<Case>, spec: &Arc<ConcSpec>, pre: &Arc<Pr
         *res.site_counts.entry(k.clone()).or_insert(0) += v;
     }
     let mut failure = sh.failure.lock().unwrap().take();
-    let own = |f: &Failure| f.props.iter().any(|p| *p == case.property);
+    let own = |f: &Failure| is_own(&case.property, f);
     if failure.as_ref().map_or(true, |f| !own(f)) {
         if let Some(v) = sim.mon.take_own() {
             failure = Some(Failure { props: vec![v.property.clone()], class: format!("{}:{}", v.monitor, v.class), op_index: 0, message: format!("step {}: {}", v.step, v.message) });
@@ -1013,6 +1023,13 @@ fn one_execution<K: SimKey>(case: &Arc<Case>, spec: &Arc<ConcSpec>, pre: &Arc<Pr
         res.fingerprints.push(mix(fp, final_state.as_ref().map_or(0, |m| m.iter().fold(7u64, |a, (k, c)| mix(a, (*k as u64) << 8 | *c as u64)))));
     }
     *res.probes.entry(format!("preemptions={}", s.preemptions.min(6))).or_insert(0) += 1;
+    // make the aliasing of is_own() explicit in the reported failure, so that the driver, the
+    // minimiser and the replay command all agree on whose violation this is
+    if let Some(f) = failure.as_mut() {
+        if is_own(&case.property, f) && !f.props.iter().any(|p| *p == case.property) {
+            f.props.push(case.property.clone());
+        }
+    }
     match failure {
         Some(f) if own(&f) => {
             if res.violation.is_none() {
